@@ -170,19 +170,21 @@ Inductive pvalue : Type :=
 | PStr (s : bytes)        (* the value as a UTF-8 string *)
 | PHex (ber : bytes).     (* '#' form: the BER encoding of the value *)
 
+(* attributeValue = string / hexstring: a leading unescaped '#' announces a hexstring *)
+Definition starts_with_sharp (s : bytes) : bool :=
+  match s with b :: _ => b =? 35 | [] => false end.
+
 Definition parse_value (s : bytes) : option (pvalue * bytes) :=
-  match s with
-  | 35 :: r =>
-      match hexpairs r with
-      | Some (b :: l, rest) => Some (PHex (b :: l), rest)
-      | _ => None
-      end
-  | _ =>
-      match lex_value s with
-      | Some (ts, rest) => if string_ok ts then Some (PStr (flat_map tok_bytes ts), rest) else None
-      | None => None
-      end
-  end.
+  if starts_with_sharp s then
+    match hexpairs (tl s) with
+    | Some (b :: l, rest) => Some (PHex (b :: l), rest)
+    | _ => None
+    end
+  else
+    match lex_value s with
+    | Some (ts, rest) => if string_ok ts then Some (PStr (flat_map tok_bytes ts), rest) else None
+    | None => None
+    end.
 
 (* the text before the first '=' *)
 Fixpoint split_eq (s : bytes) : option (bytes * bytes) :=
